@@ -43,6 +43,8 @@ theorem intentCall_own (env : Env) (host : Val) (c : CmdName) (xs : List Val) : 
 
 theorem intent_own (env : Env) (host : Val) (dgram : Bytes) : (intent env host dgram).Own host := by
   unfold intent
+  split
+  · trivial
   cases load dgram with
   | error e => trivial
   | ok v =>
@@ -111,16 +113,25 @@ def notIterable : Val → Bool
 
 theorem noop_of_load_error (env : Env) (pruning : Int) (sv : Services) (host : Val) (d : Bytes) (now : Int) (e : Err)
     (h : load d = .error e) : (workStep env pruning sv host d now).Noop sv := by
-  simp only [workStep, h]; exact noop_idle sv
+  unfold workStep
+  split
+  · exact noop_idle sv
+  simp only [h]; exact noop_idle sv
 
 theorem noop_of_not_iterable (env : Env) (pruning : Int) (sv : Services) (host : Val) (d : Bytes) (now : Int) (v : Val)
     (h : load d = .ok v) (hv : notIterable v = true) : (workStep env pruning sv host d now).Noop sv := by
-  simp only [workStep, h, dispatch, unpack3']
+  unfold workStep
+  split
+  · exact noop_idle sv
+  simp only [h, dispatch, unpack3']
   cases v <;> simp [notIterable] at hv <;> exact noop_idle sv
 
 theorem noop_of_wrong_length (env : Env) (pruning : Int) (sv : Services) (host : Val) (d : Bytes) (now : Int) (xs : List Val)
     (h : load d = .ok (.tuple xs)) (hl : xs.length ≠ 3) : (workStep env pruning sv host d now).Noop sv := by
-  simp only [workStep, h, dispatch, unpack3', iterate']
+  unfold workStep
+  split
+  · exact noop_idle sv
+  simp only [h, dispatch, unpack3', iterate']
   match xs, hl with
   | [], _ => exact noop_idle sv
   | [_], _ => exact noop_idle sv
@@ -136,14 +147,20 @@ theorem noop_of_wrong_magic (env : Env) (pruning : Int) (sv : Services) (host : 
     rename_i s
     simp only [isMagic, beq_eq_false_iff_ne, ne_eq]
     exact hm s rfl
-  simp only [workStep, h, dispatch, unpack3', iterate', three, dispatch3, him]
+  unfold workStep
+  split
+  · exact noop_idle sv
+  simp only [h, dispatch, unpack3', iterate', three, dispatch3, him]
   rw [warnStep_eq_idle]; exact noop_idle sv
 
 theorem noop_of_non_text_command (env : Env) (pruning : Int) (sv : Services) (host : Val) (d : Bytes) (now : Int) (m c a : Val)
     (h : load d = .ok (.tuple [m, c, a])) (hc : ∀ s, c ≠ .str s) : (workStep env pruning sv host d now).Noop sv := by
   have hl : lookupCmd env c = none := by
     cases c <;> first | rfl | exact absurd rfl (hc _)
-  simp only [workStep, h, dispatch, unpack3', iterate', three, dispatch3, hl]
+  unfold workStep
+  split
+  · exact noop_idle sv
+  simp only [h, dispatch, unpack3', iterate', three, dispatch3, hl]
   split <;> (rw [warnStep_eq_idle]; exact noop_idle sv)
 
 theorem findCmd_none_of_not_mem (lowered : List Nat) : ∀ (tbl : List (List Nat × Nat)), lowered ∉ tbl.map Prod.fst →
@@ -163,13 +180,19 @@ theorem noop_of_unknown_command (env : Env) (pruning : Int) (sv : Services) (hos
     apply findCmd_none_of_not_mem
     have : Gen.cmdTable.map Prod.fst = [nmQuery, nmRegister, nmUnregister] := by decide
     rw [this]; exact hs
-  simp only [workStep, h, dispatch, unpack3', iterate', three, dispatch3, hl]
+  unfold workStep
+  split
+  · exact noop_idle sv
+  simp only [h, dispatch, unpack3', iterate', three, dispatch3, hl]
   split <;> (rw [warnStep_eq_idle]; exact noop_idle sv)
 
 theorem noop_of_wrong_arg_count (env : Env) (pruning : Int) (sv : Services) (host : Val) (d : Bytes) (now : Int) (m : Val)
     (s : List Nat) (args : List Val) (c : CmdName × Nat) (h : load d = .ok (.tuple [m, .str s, .tuple args]))
     (hc : lookupCmd env (.str s) = some c) (hn : args.length ≠ c.2) : (workStep env pruning sv host d now).Noop sv := by
-  simp only [workStep, h, dispatch, unpack3', iterate', three, dispatch3, hc, execute, hn]
+  unfold workStep
+  split
+  · exact noop_idle sv
+  simp only [h, dispatch, unpack3', iterate', three, dispatch3, hc, execute, hn]
   split
   · exact noop_idle sv
   · rw [warnStep_eq_idle]; exact noop_idle sv
